@@ -27,6 +27,8 @@ pub fn leaf_table(with_f64: bool) -> Vec<Ty> {
     }
     v.push(Ty::Atomic(Scalar::I32));
     v.push(Ty::Atomic(Scalar::U32));
+    // float atomics (naga: SHADER_FLOAT32_ATOMIC; storage address space only - other placements leave the universe)
+    v.push(Ty::Atomic(Scalar::F32));
     for n in 2..=4u8 {
         for s in &scalars {
             v.push(Ty::Vec(n, *s));
